@@ -898,9 +898,14 @@ class VmapBatchHandler:
             for arg, axis in zip(vector_args, batch_axes)
         )
 
-        # Create new sampler with updated sample shape
+        # Create new sampler with updated sample shape; keyword parameters of the site must
+        # reach the sampler as keywords, not positionally
         new_config = self.config.with_sample_shape(new_sample_shape)
-        result = create_sample_primitive(new_config)(*vector_args)
+        if params["yes_kwargs"]:
+            args, kwargs = jtu.tree_unflatten(params["in_tree"], vector_args)
+        else:
+            args, kwargs = vector_args, {}
+        result = create_sample_primitive(new_config)(*args, **kwargs)
 
         # Samples are laid out as sample_shape + parameter batch shape: when the lanes come
         # from batched parameters, the mapped axis sits after the site's own sample_shape.
